@@ -30,11 +30,13 @@ CLAIMED = {
             "and handle_timeout names a path inside a configured location (mkdir/rmdir: or an ancestor of one). Tie: exhaustive names to length 6, store paths, and handler histories whose real call logs are checked.",
             NOTE + "Confinement is string-level (prefix) and assumes canonical queue entries (no '..'); effects on the watched tree are judged by the dump monitor.",
             "program logic over the effect monad (call-log predicate for all oracles); differential correspondence + log monitor"),
-    "C02": ("Queue part proved: a due queue yields each path exactly once, in the order of its last write (reference FIFO, to which the queue model is proved equal for "
-            "every interleaving), nothing pending = indefinite wait; copy part proved: C05_copy_exact. Handler-level composition (exactly one new version with the "
-            "current content per due file, nothing else, expected remaining queue and wait) is tied by running the real handler against the world model on random burst "
-            "histories and judged by a burst monitor on the implementation's own dumps.",
-            NOTE + "Partial: no single theorem composes queue + copy + pop at handler level.", "FIFO refinement + copy theorem; world correspondence + burst monitor"),
+    "C02": ("Theorems, queue level: a drain yields each due path once, in the order of its last write; the queue is the reference FIFO; nothing pending means an indefinite wait. "
+            "World level, for every benign oracle: one timeout pass of the handler over the file system, whose due prefix consists of plain heads (flags 0, first candidate name free), stores exactly one version of each "
+            "with its current content, in queue order; nothing else appears; every other name and inode is unchanged; the journal gets one line per entry; the on-disk queue is the rest and still refines the reference queue; "
+            "the wait is that of the rest; no error (composition of the queue refinement, the exact copy and the handler loop). Tie: random burst histories at world level incl. a store made unusable for one pass; the burst "
+            "monitor predicts from the on-disk queue what is due and demands exactly one new version with the current content, the remaining queue and the wait.",
+            NOTE + "The world theorem covers plain heads without collision; history, project and collision heads are covered by C08/C11/C04 theorems and by the correspondence. No concurrent writer.",
+            "refinement + program-logic composition over the world model; world correspondence + burst monitor"),
     "C03": ("Theorem: after any prefix of any operation history the queue directory reloads to exactly the reference queue of that prefix (every queue operation is a single "
             "directory mutation, so these are all disk states a crash can leave); a torn position file only rewinds. Store side: confinement for every oracle including crashes. "
             "Tie: the implementation is really killed (_exit) before every system call of 15 scenario families, restarted and drained, and compared with the model under the same crash index.",
@@ -58,9 +60,13 @@ CLAIMED = {
             "compared with the model; monitors: completed-or-reported, nothing pending lost, no partial version, position kept.",
             NOTE + "Allocation failures are not modelled (not enumerated in this version). Faults ENOENT/EACCES at the open of the source simulate the expected conditions. Known finding K3.",
             "fault enumeration against the model under the same oracle + monitors; trace lemmas"),
-    "C11": ("Theorem: the flags of a queued project member round-trip (project bit, history bit, root offset do not interfere); snapshot calls confined (C09). Tie: project histories (root and parent style, "
-            "depth 1-4, deletions, restarts, both traversal orders); monitor: every new snapshot entry is the same inode as the latest version, every versioned member that still exists is present.",
-            NOTE + "Partial: the snapshot content is established by correspondence + monitor, not by a theorem.", "bit-field lemma; world correspondence + project monitor"),
+    "C11": ("Theorems: the flags of a queued project member round-trip. World level, every benign oracle, BOTH traversal orders: after the snapshot program the new directory holds, at the same relative paths, the same inodes "
+            "as the unstable project tree for everything the project still has and nothing else; what the project lost is pruned; intermediate directories exist; store, earlier snapshots and all contents unchanged; "
+            "a due project head yields exactly one new snapshot directory (also after k name collisions), one journal line, and only then leaves the queue. Tie: project histories (root and parent style, depth 1-4, "
+            "deletions of files and whole sub-directories, restarts, both orders, a blocked project store); monitor: every new snapshot entry is the same inode as the latest version, survivors present, deleted absent, "
+            "earlier snapshots untouched, a project entry leaves the queue only with exactly one snapshot.",
+            NOTE + "That the unstable tree holds the latest versions is the file branch's job (tied by correspondence). No symbolic links inside projects (the model's access() does not follow a dangling link).",
+            "program logic over the inode-level file system for both fts orders; world correspondence + project monitor"),
     "C19": ("Theorems: line format (empty timestamp/label omitted with their tab, pid omitted when 0), exactly one newline, any positive chunking of the write appends exactly the line once, a labelled "
             "event appends exactly its line and nothing else changes, unlabelled events / no journal do nothing. Tie: all label choices, timestamp patterns including the empty one, short writes, journal monitor.",
             NOTE, "induction over the write loop for all chunkings; world correspondence + journal monitor"),
@@ -93,11 +99,13 @@ CLAIMED = {
             NOTE + "Not expressible in the model: lifetimes, frees, libc contracts. Inputs whose outcome depends on the machine (lseek beyond the file system's maximum offset, malloc of gigabytes, paths with '.'/'..' components) run under the sanitizers without model comparison.",
             "bounds lemmas + sanitizer runs + differential correspondence"),
     "C16": ("The configuration table is TRANSLATED from lua/config.lua.md on every run (tools/gen_config.py, closed grammar, refuses anything else) and the theorems are re-checked against it: documented "
-            "defaults (hand-written from the documentation / config-static.c), well-scopedness of defaults, derived defaults follow prefix and debounce, assigned values verbatim, ill-typed value => load fails "
-            "(generic in the table). Tie: the real load_config with liblua 5.3 on ~800 generated configuration files (every setting x every value class, key operations, random subsets) against the model and a "
-            "restatement of the documentation; handler histories with the watched configuration file rewritten at every position (valid / invalid).",
-            NOTE + "Configuration files are finite lists of assignments of literals (arbitrary Lua is out of scope). Reload atomicity is tied by correspondence + monitor, not by a theorem.",
-            "translation of the declarative source + interpreter proofs; differential correspondence"),
+            "defaults, well-scopedness, derived defaults follow prefix and debounce, assigned values verbatim, ill-typed value => load fails (generic in the table). Reload, for EVERY oracle: a returning run of reload / "
+            "of the write handler on the configuration file either ends with an ok trace and a handler carrying exactly the new configuration (new queue if the path differs else the old queue with the new debounce, newly "
+            "opened journal) or with an error and the handler unchanged; a write event never loses a pending entry; K3 (old queue stranded) machine-checked with a refutation witness. Tie: the real load_config with liblua 5.3 "
+            "on ~850 generated files; handler histories with the configuration rewritten at every position (valid / not Lua / ill-typed / journal cannot be opened) and a monitor demanding that nothing of a rejected "
+            "configuration shows in later operations.",
+            NOTE + "Configuration files are finite lists of assignments of literals (arbitrary Lua is out of scope). 'Nothing applied' is about the handler: a failed reload may leave an empty new queue directory on disk.",
+            "translation of the declarative source + interpreter proofs; all-or-nothing theorem over the world model for all oracles; differential correspondence + reload monitor"),
 }
 ENGINE = "coq-model+correspondence"
 
